@@ -169,6 +169,12 @@ func runC10(t *kernel.Tape, opt core.Opts) *core.Outcome {
 	} else if t.PlanBool(8) {
 		injectBranchFault(t, p) // a branch condition that returns an error
 	}
+	// some node bodies do inner work under a handler-less callback context of their own
+	for _, l := range lambdas(p, "") {
+		if t.PlanBool(12) {
+			l.n.Detach = true
+		}
+	}
 	in := M{"in": fmt.Sprintf("x%d", t.Plan(3))}
 	call := &Call{Tag: "r0", Paradigm: t.Plan(4), In: in, InCut: t.Plan(3), InPipe: t.PlanBool(50), StopAfter: -1}
 	// handler supply
@@ -329,6 +335,9 @@ func runC10(t *kernel.Tape, opt core.Opts) *core.Outcome {
 				o.Violate("C10/designated-handler-fired-for-other-node", fmt.Sprintf("the handler designated to %v was invoked (%s) for %s", m.names, ev.Timing, ev.Name))
 			}
 		}
+		if strings.HasPrefix(ev.Name, "inner:") && ev.Handler != "G" {
+			o.Violate("C10/handler-fired-for-detached-work", fmt.Sprintf("handler %s was invoked (%s) for %s, work a node body does under a callback context of its own without handlers", ev.Handler, ev.Timing, ev.Name))
+		}
 		if ev.Tag != "r0" {
 			o.Violate("C10/foreign-context", fmt.Sprintf("handler %s invoked with the context of %q", ev.Handler, ev.Tag))
 		}
@@ -405,7 +414,7 @@ func init() {
 	})
 	core.Register(&core.Profile{
 		RaceQuick: 200, RaceThorough: 3000, ID: "C10", Engine: "graphsim", Quick: 2000, Thorough: 50000, ThoroughSeeds: 3, Run: runC10,
-		Rule: "each run draws a plan (all modes, nested graphs, parallel nodes), a handler supply (global handler, 0-3 graph-level handlers each in its own call option, 0-3 handlers designated to nodes or node paths), per handler what it does with stream payloads (read all, read one chunk, close at once), optionally a failing node; oracle: per handler and execution unit exactly one start-type and one end-type callback, start first, the unit's RunInfo, designated handlers only for their node, start payload = an input of that node, graph data equal to the model; handler options are built from caller slices with spare capacity and passed in a drawn order; one option may designate several targets (nested paths and top-level keys mixed) including nodes that have a handler of their own; faults: a failing node or a branch condition that returns an error; the graph itself gets exactly one start and one end callback whatever happens",
+		Rule: "each run draws a plan (all modes, nested graphs, parallel nodes), a handler supply (global handler, 0-3 graph-level handlers each in its own call option, 0-3 handlers designated to nodes or node paths), per handler what it does with stream payloads (read all, read one chunk, close at once), optionally a failing node; oracle: per handler and execution unit exactly one start-type and one end-type callback, start first, the unit's RunInfo, designated handlers only for their node, start payload = an input of that node, graph data equal to the model; handler options are built from caller slices with spare capacity and passed in a drawn order; one option may designate several targets (nested paths and top-level keys mixed) including nodes that have a handler of their own; faults: a failing node or a branch condition that returns an error; the graph itself gets exactly one start and one end callback whatever happens; some node bodies do inner work under a handler-less callback context of their own, which no handler of the run may see",
 		Real: graphReal, Stub: append([]string{"callback handlers (recording stubs; stream payloads read by handler tasks)"}, graphStub...),
 		Faults: []string{"handlers closing or partially reading their stream copies", "parallel nodes", "node error/panic"},
 	})
